@@ -56,6 +56,10 @@ pub fn meta() -> Meta {
 pub fn shards(tier: &str) -> Vec<String> {
     let thorough = tier == "thorough";
     let mut v = vec![];
+    // operator histories whose results are bare terminals, on a 4-entry terminal table (terminal values are
+    // created, die and their slots are recycled within a history): lock-step with the model on managers of
+    // several cache capacities (the engine of C06)
+    v.extend(crate::hist::shards_for(&["mtbddk"], &["n64c0t1k4"], 1).into_iter().map(|s| format!("khist:{s}")));
     for k in ["i64", "f64"] {
         v.push(format!("{k}:scalars"));
         v.push(format!("{k}:n1:0:all"));
@@ -101,6 +105,10 @@ const HISTFULL_PARTS: usize = 8;
 
 pub fn run(ctx: &mut Ctx) {
     let shard = ctx.shard.clone();
+    if let Some(rest) = shard.strip_prefix("khist:") {
+        ctx.shard = rest.to_string();
+        return crate::hist::run_shard(ctx, crate::hist::Prop::C06, if ctx.thorough() { 5 } else { 4 });
+    }
     match shard.split(':').next().unwrap() {
         "i64" => run_k::<MtI64>(ctx, &shard),
         "f64" => run_k::<MtF64>(ctx, &shard),
